@@ -44,7 +44,7 @@ Theorem cause_spec3 :
 Proof. exact Proofs_RegPre.cause_spec3. Qed.
 Print Assumptions cause_spec3.
 
-(* the whole alphabet ([step2]: all 57 constructors / mutators, inv2_step_covers_all in C04.v) *)
+(* the whole alphabet ([step2]: all 59 constructors / mutators, inv2_step_covers_all in C04.v) *)
 Theorem refused_iff_pre2 : forall s o, Inv2 s -> (is_err (snd (step2 s o)) = true <-> ~ pre2 s o).
 Proof. exact Proofs_RegPre.refused_iff_pre2. Qed.
 Print Assumptions refused_iff_pre2.
